@@ -88,6 +88,9 @@ Inductive case :=
    reports each websocket message carried: the rate limit keeps reports a second apart (600 ms are
    demanded of the arrival times, which jitter) and so one report per message *)
 | CRate (arrivals : list Z) (per_message : list N)
+(* a body GET /status answered, with the listing decoded from it (float texts as they stand in the
+   body): the model's encoder must write the same bytes *)
+| CRest (rs : list report) (body : bytes)
 (* a connection that has sent / received [count] messages: the "never" flags its reports showed *)
 | CTraffic (count : N) (never : list bool).
 
@@ -110,6 +113,7 @@ Definition case_ok (c : case) : bool :=
   | CParse s obs => option_eqb Z.eqb (parse_duration_bytes s) obs
   | CFps raw obs => fnum_eqb (fps_from_ns raw) obs
   | CHist evs obs => multiset_eqb ident_eqb (map ident_of_member (listed (hub_run evs))) obs
+  | CRest rs body => option_eqb bytes_eqb (encode_rest rs) (Some body) && json_wf body
   | CTraffic count never =>
     let f := mk_frames count 0 lex_zero (Finite lex_zero) in
     let model_never := bytes_eqb (rs_last (stats_of_frames fps_from_ns 1 f)) lit_Never in
@@ -130,6 +134,7 @@ Definition case_nontrivial (c : case) : bool :=
   | CHist evs _ => Nat.leb 2 (length (listed (hub_run evs)))
   | CRate arrivals _ => Nat.leb 3 (length arrivals)
   | CTraffic count _ => 0 <? count
+  | CRest rs _ => Nat.leb 2 (length rs)
   end.
 
 Definition mismatches (cs : list case) : list N := mismatch_idx case_ok 0 cs.
